@@ -13,7 +13,7 @@
                    invalidate order, register (born valid);
    * topology.c    hwloc_topology_refresh; the tail of hwloc_topology_load
                    (invalidate + refresh, THEN the RESTRICT_TO_*BINDING
-                   restricts); hwloc_topology_restrict's invalidations;
+                   restricts, THEN - since fix 970d793 - a refresh); hwloc_topology_restrict's invalidations;
                    hwloc_hide_errors' static cache;
    * topology-xml.c / topology-xml-libxml.c  the function-local static
                    `checked` caches (hwloc__xml_verbose, hwloc_nolibxml_import,
@@ -39,12 +39,14 @@ Inductive static_id :=
 | SXmlVerbose        (* topology-xml.c hwloc__xml_verbose: checked / verbose *)
 | SNolibxmlImport    (* topology-xml.c hwloc_nolibxml_import: checked / nolibxml *)
 | SNolibxmlExport    (* topology-xml.c hwloc_nolibxml_export: checked / nolibxml *)
-| SLibxmlInit.       (* topology-xml-libxml.c hwloc_libxml2_init_once: checked / hwloc_libxml2_needs_cleanup *)
+| SLibxmlInit        (* topology-xml-libxml.c hwloc_libxml2_init_once: checked / hwloc_libxml2_needs_cleanup *)
+| SSynthWarned.      (* topology-synthetic.c hwloc__export_synthetic_memory_children: `static int warned`,
+                        read and then written UNCONDITIONALLY each time the warning condition holds *)
 
 Definition static_eqb (a b : static_id) : bool :=
   match a, b with
   | SHideErrors, SHideErrors | SXmlVerbose, SXmlVerbose | SNolibxmlImport, SNolibxmlImport
-  | SNolibxmlExport, SNolibxmlExport | SLibxmlInit, SLibxmlInit => true
+  | SNolibxmlExport, SNolibxmlExport | SLibxmlInit, SLibxmlInit | SSynthWarned, SSynthWarned => true
   | _, _ => false
   end.
 
@@ -283,9 +285,14 @@ Inductive cop :=
 | CSets              (* hwloc_topology_get_{allowed,complete,topology}_{cpuset,nodeset} *)
 | CBitmap            (* bitmap queries on the topology's sets *)
 | CExportXml         (* hwloc_topology_export_xmlbuffer (+ hwloc_free_xmlbuffer) *)
-| CExportSynth.      (* hwloc_topology_export_synthetic *)
+| CExportSynth (warns : bool).
+    (* hwloc_topology_export_synthetic; warns = HWLOC_SYNTHETIC_VERBOSE is set and the topology has a
+       memory-side cache with several memory children (a tree-level fact, input of the step): the
+       export then goes through `if (!warned) fprintf(..); warned = 1;` *)
 
 Definition uses_statics (c : cop) : bool := match c with CExportXml => true | _ => false end.
+(* a call that writes a process-wide static every time, warm or not *)
+Definition always_writes (c : cop) : bool := match c with CExportSynth true => true | _ => false end.
 
 Definition result := list nat.
 
@@ -304,8 +311,12 @@ Fixpoint replace_nth {A} (n : nat) (x : A) (l : list A) : list A :=
 (* a consulting call on LOADED topology number t *)
 Definition cons_run (t : nat) (tp : topo) (g : glob) (c : cop) : topo * glob * result * list ev :=
   match c with
-  | CTraverse | CTypePrint | CLocalNodes | CSets | CBitmap | CMaMeta | CExportSynth =>
+  | CTraverse | CTypePrint | CLocalNodes | CSets | CBitmap | CMaMeta | CExportSynth false =>
       (tp, g, [], [Rd (LTree t)])
+  | CExportSynth true =>
+      (tp, mkGlob (if mem_static SSynthWarned (g_checked g) then g_checked g else SSynthWarned :: g_checked g)
+                  (g_envset g) (g_libxml g) (g_users g), [],
+       [Rd (LTree t); Rd (LStChecked SSynthWarned); Wr (LStChecked SSynthWarned) 1])
   | CCpukinds => (tp, g, [], [Rd (LTree t); Rd (LCpukinds t)])
   | CDistRelease => (tp, g, [], [])
   | CDistGet =>
@@ -407,10 +418,12 @@ Record loadcfg := mkCfg {
   c_nodist : bool; c_nomemattr : bool; c_nocpukinds : bool;
   c_dists : list nat;         (* nbobjs of every distances structure the backend added *)
   c_extra_mattrs : nat;       (* attributes registered by the backend beyond the predefined ones *)
-  c_bind_restrict : option (list nat);
+  c_bind : option (option (list nat));
   c_xml : bool }.             (* the source is XML (hwloc_topology_set_xml / set_xmlbuffer) *)
-    (* Some lives: HWLOC_TOPOLOGY_FLAG_RESTRICT_TO_CPUBINDING / _MEMBINDING is set, the binding
-       was obtained and hwloc_topology_restrict(binding) ran at the very end of load *)
+    (* None: neither HWLOC_TOPOLOGY_FLAG_RESTRICT_TO_CPUBINDING nor _MEMBINDING is set.
+       Some None: a flag is set but the binding was not obtained or the restrict was rejected.
+       Some (Some lives): hwloc_topology_restrict(binding) ran after the refreshes of load.
+       In both Some cases hwloc_topology_refresh runs afterwards (fix 970d793). *)
 
 (* hwloc_internal_memattrs_prepare: CAPACITY and LOCALITY are convenience attributes, the other six are
    not; none is born with CACHE_VALID (the refresh at the end of load sets it).  Cross-checked against
@@ -434,10 +447,13 @@ Definition load_run (t : nat) (c : loadcfg) : topo * list ev :=
   let '(ms1, e3) := (if c_nomemattr c then (ms0, []) else mas_need_refresh_from t 0 ms0) in
   let '(ms2, e4) := (if c_nomemattr c then (ms1, []) else mas_refresh_from t 0 ms1) in
   let tp1 := mkTopo true (c_nodist c) (c_nomemattr c) (c_nocpukinds c) ds2 (length ds0) ms2 in
-  (* state |= IS_LOADED; then the binding restricts *)
-  match c_bind_restrict c with
+  (* state |= IS_LOADED; then the binding restricts, then (fix 970d793) hwloc_topology_refresh *)
+  match c_bind c with
   | None => (tp1, e0 ++ e1 ++ e2 ++ e3 ++ e4)
-  | Some lives => let '(tp2, e5) := do_restrict t tp1 lives in (tp2, e0 ++ e1 ++ e2 ++ e3 ++ e4 ++ e5)
+  | Some r =>
+      let '(tp2, e5) := (match r with Some lives => do_restrict t tp1 lives | None => (tp1, []) end) in
+      let '(tp3, e6) := do_refresh t tp2 in
+      (tp3, e0 ++ e1 ++ e2 ++ e3 ++ e4 ++ e5 ++ e6)
   end.
 
 (* hwloc_xml_component_instantiate (at set_xml time): hwloc_nolibxml_import(), then the libxml backend's
